@@ -19,6 +19,12 @@ set `GradIndex.current := asCoded`, replace `model_variant` by `theorem model_va
 and, in harness/props/c07.py, make `LEAN["required"]` = [sens_index_spec, grad_is_chain_rule_partial,
 grad_order_counterexample, model_variant].  Every other theorem here is about an explicit variant and
 compiles either way.
+
+HISTORIES.  `sensToGrad` and the index functions below are pure functions of (sensitivities, diff_loss, weights,
+layout): the gradient of a real loss object after any history of calls must be that function for the values the
+object holds at that moment.  The state machine of those values (`Held`, `step`, `outputs`) and what it
+guarantees (`unrollState_target`, `earlier_outputs_unaffected`, `atStored_reproduces`) is in `Props/C06.lean`;
+`harness/props/losshist.py` runs it in lock step with the real objects.
 -/
 import Pygom.Lemmas.GradIndex
 
